@@ -31,6 +31,6 @@ Proof. exact submit_only_when_satisfied. Qed.
 
 Example c46_ex_pre_start_spawn_rejected :
   run {| c_insts := c_insts C01.ex_cfg; c_points := [1; 2]; c_runahead := 1%nat; c_qlimits := [0%nat];
-         c_icp := 1; c_fcp := 2; c_start := 2 |}
+         c_icp := 1; c_fcp := 2; c_start := 2; c_future := [] |}
       [ESpawn C01.a [1%nat] [] false] = Some (0%nat, 106%nat).
 Proof. vm_compute. reflexivity. Qed.
